@@ -18,7 +18,7 @@ LEVEL = "exploration"
 RULE = (
     "histories of 20..400 completed top-level SDK operations (if ctx/cb unary+binary on futures, loop, loop_body, foreach, "
     "enumerate, loop_until, add future/future with and without modulus, measure into array future / implicit array / "
-    "register, EPR keep/measure/context operations) on one connection, one kind repeated or mixed, flush after every k-th "
+    "register, EPR keep/measure/context operations with and without the Phi+ expectation, loops with registers named by the application) on one connection, one kind repeated or mixed, flush after every k-th "
     "(k drawn 1..10), nesting up to depth 4; oracle: every operation compiles and flushes (no register exhaustion), the "
     "C05 differential oracle holds, and the builder's active-register set is empty whenever no operation is open.  "
     "Non-trivial = >=17 completed operations of one kind on one connection; distinct by history hash"
@@ -99,7 +99,7 @@ def check(prog) -> Dict[str, Any]:
 
 
 EPR_KINDS = ["create_keep", "recv_keep", "create_measure", "recv_measure", "recv_keep_seq", "create_keep_seq", "create_keep_minfid", "recv_keep_minfid", "recv_rsp", "create_rsp",
-             "array_undefine", "create_context", "recv_context", "meas16_registers"]
+             "array_undefine", "create_context", "recv_context", "meas16_registers", "recv_keep_noexpect", "recv_keep_seq_noexpect", "recv_rsp_noexpect"]
 
 
 @st.composite
@@ -130,6 +130,11 @@ def check_epr(case) -> Dict[str, Any]:
     for i, (k, n) in enumerate(case["epr_ops"]):
         try:
             role = "create" if k.startswith("create") else "recv"
+            xkw = {}
+            if k.endswith("_noexpect"):
+                # the receiver does not ask for Phi+ (no corrections are compiled)
+                k = k[: -len("_noexpect")]
+                xkw["expect_phi_plus"] = False
             if k == "meas16_registers":
                 # one flush window that holds 16 measurement outcomes in registers at once (all M registers), then flushes
                 from netqasm.sdk.qubit import Qubit
@@ -161,7 +166,7 @@ def check_epr(case) -> Dict[str, Any]:
                     qs = sock.recv_rsp(number=1)  # >=2 pairs on NV hardware never completes (C10's open finding)
                     n = 1
                 else:
-                    qs = getattr(sock, k)(number=n)
+                    qs = getattr(sock, k)(number=n, **xkw)
                 stack.expect(role, "K", n)
                 for j, q in enumerate(qs):
                     q.measure(future=out.get_future_index(j))
@@ -174,7 +179,7 @@ def check_epr(case) -> Dict[str, Any]:
                 def post(c, q, pair):
                     q.measure(future=out.get_future_index(pair))
 
-                qs = api(number=n, sequential=True, post_routine=post)
+                qs = api(number=n, sequential=True, post_routine=post, **xkw)
                 stack.expect(role, "K", n)
                 # the post routine consumed every pair; the handles returned for them stay active on the connection
                 # (C09's open finding): release them through the public `active` setter so that this check is only
